@@ -13,9 +13,21 @@ use std::collections::{BTreeMap, BTreeSet};
 const TYPES: [&str; 2] = ["a", "b"];
 const CTXS: [&str; 2] = ["c0", "c1"];
 
-fn ev(k: i64) -> Ev {
-    // alternate types/contexts so that one rotation carries both types
-    if k % 2 == 0 { Ev { k, typ: "a".into(), ctx: "c0".into() } } else { Ev { k, typ: "b".into(), ctx: "c1".into() } }
+fn ev(k: i64, cap: usize) -> Ev {
+    if cap >= 4 {
+        // memtables of four or more events: one context receives a, b, a within one generation
+        // (it returns to its first event type after another one), the fourth event goes elsewhere
+        match k % 4 {
+            0 | 2 => Ev { k, typ: "a".into(), ctx: "c0".into() },
+            1 => Ev { k, typ: "b".into(), ctx: "c0".into() },
+            _ => Ev { k, typ: "b".into(), ctx: "c1".into() },
+        }
+    } else if k % 2 == 0 {
+        // alternate types/contexts so that one rotation carries both types
+        Ev { k, typ: "a".into(), ctx: "c0".into() }
+    } else {
+        Ev { k, typ: "b".into(), ctx: "c1".into() }
+    }
 }
 
 /// LIMIT used by the bounded reads of a type of which `n` events are applied: (exactly n, one less)
@@ -78,7 +90,7 @@ fn build(s: &Schedule) -> Built {
     let mut observes = Vec::new();
     for _ in 0..s.prefix_fills {
         for _ in 0..cap {
-            let e = ev(k);
+            let e = ev(k, cap);
             k += 1;
             ops.push(Op::Cmd { text: e.store_cmd() });
             acked.push(e);
@@ -95,7 +107,7 @@ fn build(s: &Schedule) -> Built {
     // the rotation under test: cap STOREs, the last one fills the memtable
     let mut trigger_op = 0;
     for i in 0..cap {
-        let e = ev(k);
+        let e = ev(k, cap);
         k += 1;
         trigger_op = ops.len();
         // quiescence after the STORE that triggers the rotation: the flush task must have
@@ -108,7 +120,7 @@ fn build(s: &Schedule) -> Built {
     observes.push((ops.len(), acked.clone(), "parked"));
     ops.push(Op::Observe { queries: read_suite(&acked) });
     for _ in 0..s.extra {
-        let e = ev(k);
+        let e = ev(k, cap);
         k += 1;
         // while a flush task is parked, further rotations only queue behind it: no barrier
         // between the ack and the read (read-your-writes through the FIFO mailbox); in the
@@ -138,7 +150,7 @@ fn build(s: &Schedule) -> Built {
         }
         tail_op = ops.len();
         for _ in 0..cap {
-            let e = ev(k);
+            let e = ev(k, cap);
             k += 1;
             ops.push(Op::Cmd { text: e.store_cmd() });
             acked.push(e);
@@ -375,7 +387,7 @@ pub fn check(tier: &str) -> i32 {
     let kf = crate::known::load();
     let scratch = Scratch::new("c03");
     let cfgs: Vec<SysConfig> = if tier == "quick" {
-        vec![SysConfig { fill_factor: 1, event_per_zone: 2, ..Default::default() }, SysConfig { fill_factor: 2, event_per_zone: 1, shards: 2, ..Default::default() }]
+        vec![SysConfig { fill_factor: 1, event_per_zone: 2, ..Default::default() }, SysConfig { fill_factor: 2, event_per_zone: 1, shards: 2, ..Default::default() }, SysConfig { fill_factor: 2, event_per_zone: 2, ..Default::default() }]
     } else {
         vec![
             SysConfig { fill_factor: 1, event_per_zone: 2, ..Default::default() },
